@@ -1057,7 +1057,11 @@ class Interp:
         return B.dict_comprehension(self, st, node)
 
     def e_Lambda(self, st, node):
-        raise Unsupported("lambda")
+        # a lambda with positional parameters only: a function value that closes over the current local environment
+        a = node.args
+        if a.vararg or a.kwarg or a.kwonlyargs or a.defaults or a.posonlyargs:
+            raise Unsupported("lambda with defaults / *args / keyword-only parameters")
+        return VFunc("<lambda>", info={"lambda": node, "env": dict(st.env)})
 
     # ------------------------------------------------------------------ calls
     def e_Call(self, st, node):
@@ -1118,6 +1122,18 @@ class Interp:
         eng = self.eng
         reg = eng.reg
         fv = eng.unbox(st, fv)
+        if isinstance(fv, VFunc) and isinstance(fv.info, dict) and "lambda" in fv.info:
+            lam = fv.info["lambda"]
+            names = [x.arg for x in lam.args.args]
+            if kwargs or len(args) != len(names):
+                raise Unsupported(f"{self.site(node)}: call of a lambda with {len(args)} positional / {len(kwargs)} keyword arguments")
+            saved = st.env
+            st.env = dict(fv.info["env"])
+            st.env.update(dict(zip(names, args)))
+            try:
+                return self.eval(st, lam.body)
+            finally:
+                st.env = saved
         if isinstance(fv, VFunc):
             pre = getattr(fv, "pre_args", None)
             if pre:  # functools.partial(f, *pre)
